@@ -22,3 +22,15 @@ Fixpoint ml_eqb (a b : list msg) : bool :=
 (* host: compare the wire and the WAL contents *)
 Definition host_ok (local : Z) (ops : list hop) (wire wal : list msg) : bool :=
   let h := hrun local ops in ml_eqb (h_wire h) wire && ml_eqb (h_wal h) wal.
+
+(* per-operation number of messages reaching the wire, for the correspondence with the REAL runner *)
+Fixpoint hcounts (local : Z) (h : host) (ops : list hop) : list Z :=
+  match ops with
+  | [] => []
+  | o :: r => let h' := hstep local h o in
+              (Z.of_nat (length (h_wire h')) - Z.of_nat (length (h_wire h))) :: hcounts local h' r
+  end.
+Fixpoint zlist_eqb (a b : list Z) : bool :=
+  match a, b with [] , [] => true | x :: a', y :: b' => (x =? y) && zlist_eqb a' b' | _, _ => false end.
+Definition hostrun_ok (local : Z) (ops : list hop) (counts : list Z) (wal : list msg) : bool :=
+  zlist_eqb (hcounts local host_init ops) counts && ml_eqb (h_wal (hrun local ops)) wal.
